@@ -183,6 +183,30 @@ Definition disconnect_ok (names : list nsname) (ops : list op) (x : orow) : bool
   else if k =? 3 then existsb (fun o => closes_legit names o c) ops
   else true.
 
+(** nothing of namespace n reaches a client before the server accepted its CONNECT for n: an event
+    (handler entry on a Go client -- which parks early frames and hands them over at the CONNECT reply --
+    or an EVENT frame read by a raw peer) that stems from a server-side emit / broadcast made by
+    operation i requires (conn, n) to have been accepted by the operations before i; a refused
+    CONNECT never gets anything.  Operations are executed one after the other, each to completion. *)
+Fixpoint emit_index (tag : N) (i : nat) (ops : list op) : option nat :=
+  match ops with
+  | [] => None
+  | o :: l =>
+      match o with
+      | OpSEmit _ _ t _ | OpBcast _ _ t | OpSBcast _ _ _ t => if t =? tag then Some i else emit_index tag (S i) l
+      | _ => emit_index tag (S i) l
+      end
+  end.
+
+Definition not_before_accept (names gated : list nsname) (ops : list op) (x : orow) : bool :=
+  let '(k, srv, c, n, a, _, _) := x in
+  if negb srv && ((k =? 0) || (k =? 12) || (k =? 15)) then
+    match emit_index a O ops with
+    | Some i => accepted_before gated names c n (firstn i ops) false
+    | None => true   (* judged by [attributable] *)
+    end
+  else true.
+
 Definition pair_is (c : N) (n : nsname) (x : N * nsname) : bool := (fst x =? c) && nseqb (snd x) n.
 
 (** a raw packet other than CONNECT for a namespace that this connection never even tried to join
@@ -205,7 +229,8 @@ Definition oracle (c : case) : bool :=
   && sid_ok [] rows
   && forallb (connect_ok names gated ops) rows
   && forallb (disconnect_ok names ops) rows
-  && probes_closed [] ops rows.
+  && probes_closed [] ops rows
+  && forallb (not_before_accept names gated ops) rows.
 
 (** * Finding class emit-while-connect-pending (known_findings.txt): some client emit on (c, n) is
     made while the CONNECT of (c, n) sits in the middleware chain of a gated namespace.  The Go
@@ -230,4 +255,5 @@ Fixpoint pending_emit (gated : list nsname) (pend conn : list (N * nsname)) (ops
   end.
 
 Definition known_pending_emit (c : case) : bool :=
-  let '(_, gated, _, ops, _) := c in pending_emit gated [] [] ops.
+  let '(names, gated, _, ops, rows) := c in
+  pending_emit gated [] [] ops && forallb (not_before_accept names gated ops) rows.
